@@ -438,7 +438,10 @@ package txmgr
 //@ func (*UtxoStore).ScriptAddressBalance
 //@   props WIP
 //@   requires s != nil && s.bucketMeta != nil && s.ksmgr != nil && tx != nil && txpool != nil
+//@   requires ghostOf[*keystore.AddrManager]("curKS", s.ksmgr) != nil
 //@   modifies gmap("iterkey")
-//@   loop#1 invariant ret != nil && fresh(ret) && (forall qs_ string :: has(ret, qs_) ==> ret[qs_] != nil && fresh(ret[qs_]) && validAmt(ret[qs_].Total) && validAmt(ret[qs_].Spendable) && validAmt(ret[qs_].WithdrawableStaking) && validAmt(ret[qs_].WithdrawableBinding))
-//@   loop#2 invariant ret != nil && fresh(ret) && (forall qs_ string :: has(ret, qs_) ==> ret[qs_] != nil && fresh(ret[qs_]) && validAmt(ret[qs_].Total) && validAmt(ret[qs_].Spendable) && validAmt(ret[qs_].WithdrawableStaking) && validAmt(ret[qs_].WithdrawableBinding))
-//@   loop#2 invariant cred != nil && fresh(cred) && cred.block != nil && fresh(cred.block) && nsUnspent != nil && nsCredits != nil && iter != nil
+//@   loop#1 invariant ret != nil && fresh(ret) && (forall qs_ string :: has(ret, qs_) ==> balOK(ret[qs_]))
+//@   loop#2 invariant ret != nil && fresh(ret) && (forall qs_ string :: has(ret, qs_) ==> balOK(ret[qs_]))
+//@   loop#2 invariant cred != nil && fresh(cred) && allocated(cred) && cred.block != nil && fresh(cred.block) && allocated(cred.block) && nsUnspent != nil && nsCredits != nil && iter != nil
+
+//@ define balOK(p) = (p != nil && fresh(p) && allocated(p) && validAmt(p.Total) && validAmt(p.Spendable) && validAmt(p.WithdrawableStaking) && validAmt(p.WithdrawableBinding))
